@@ -272,3 +272,61 @@ theorem c_mme_entry (s : BitVec 64) (dag undag : List Nat) (hd : ∀ x ∈ dag, 
 
 
 end GenC
+
+namespace GenC
+open Model
+
+theorem getD_lt64 : ∀ (occ : List Nat), (∀ x ∈ occ, x < 64) → ∀ (d : Nat), occ.getD d 0 < 64 := by
+  intro occ
+  induction occ with
+  | nil => intro _ d; simp
+  | cons x xs ih =>
+    intro h d
+    cases d with
+    | zero => simpa using h x (by simp)
+    | succ d => simpa using ih (fun y hy => h y (by simp [hy])) d
+
+theorem mmes_fold (source : BitVec 64) (occ : List Nat) (h : ∀ x ∈ occ, x < 64) :
+    ∀ (ds : List Nat) (t : BitVec 64) (p : Nat),
+    ((ds.foldl (fun (st : BitVec 64 × Nat) d =>
+        (unset_bit st.1 (occ.getD d 0), st.2 + (d + 1) * count_bits_between source (occ.getD d 0) (occ.getD (d + 1) 0))) (t, p)).1.toNat,
+     (ds.foldl (fun (st : BitVec 64 × Nat) d =>
+        (unset_bit st.1 (occ.getD d 0), st.2 + (d + 1) * count_bits_between source (occ.getD d 0) (occ.getD (d + 1) 0))) (t, p)).2) =
+      ds.foldl (fun (tp : Nat × Nat) iop =>
+        (unsetBit tp.1 (occ.getD iop 0),
+         tp.2 + (iop + 1) * countBitsBetween source.toNat (occ.getD iop 0) (occ.getD (iop + 1) 0))) (t.toNat, p) := by
+  intro ds
+  induction ds with
+  | nil => intro t p; rfl
+  | cons d rest ih =>
+    intro t p
+    simp only [List.foldl_cons]
+    rw [ih, unset_bit_eq t _ (getD_lt64 occ h d),
+      count_bits_between_eq source _ _ (getD_lt64 occ h d) (getD_lt64 occ h (d + 1))]
+
+/-- the C k-fold annihilation map kernel, as translated from fci_graph.c on every run, admits a source and computes
+    its target and parity count exactly as the Model's `mapSetEntry` (which `C05_kfold_map` identifies with the ladder
+    product over the mask's orbitals), for every 64-bit source and mask and occupation list below 64 -/
+theorem c_mmes_entry (source mask : BitVec 64) (occ : List Nat) (h : ∀ x ∈ occ, x < 64) :
+    (mmes_entry source mask occ occ.length).map (fun r => (r.1.toNat, r.2)) =
+      (if ((source.toNat &&& mask.toNat) ^^^ mask.toNat) = 0 then
+        some ((mapSetEntry occ source.toNat).2.1, (mapSetEntry occ source.toNat).2.2) else none) := by
+  unfold mmes_entry
+  rw [beq_zero_iff]
+  simp only [BitVec.toNat_and, BitVec.toNat_xor]
+  by_cases hadm : ((source.toNat &&& mask.toNat) ^^^ mask.toNat) = 0
+  · simp only [hadm, decide_true, if_true, Option.map_some]
+    have hl := getD_lt64 occ h (occ.length - 1)
+    have hc := count_bits_above_eq source _ hl
+    have hu := unset_bit_eq source _ hl
+    rw [hc]
+    have e := mmes_fold source occ h (List.range (occ.length - 1)).reverse
+      (unset_bit source (occ.getD (occ.length - 1) 0)) (countBitsAbove source.toNat (occ.getD (occ.length - 1) 0) * occ.length)
+    rw [hu] at e
+    unfold mapSetEntry
+    simp only []
+    rw [← e]
+  · simp [hadm]
+
+
+end GenC
